@@ -42,7 +42,7 @@ def simplify_families(tier: str) -> Dict[str, List[Any]]:
     """families exercising every rule of hpl.rewrite.simplify with the literals its branches test (0, 1, -1, 10)"""
     fam: Dict[str, List[Any]] = {}
     thorough = tier == 'thorough'
-    n0 = [X, Y, L(0), L(1), L(-1), L(2), L(1.5)]
+    n0 = [X, AX, Y, L(0), L(1), L(-1), L(2), L(1.5)]  # self fields and alias fields are normalised differently
     n1 = n0 + bins(ARITH, n0, n0) + [('neg', a) for a in n0]
     fam['cmp-depth1'] = bins(CMP, n1, n0) + bins(CMP, n0, [n for n in n1 if n not in n0])
     m0 = [X, L(0), L(1), L(2), L(-1)] + ([Y] if thorough else [])
@@ -139,3 +139,57 @@ def random_specs(seed: int, n: int, dmax: int = 4) -> List[Any]:
         d = rg.r.choice((2, 3, 3, 4, dmax))
         out.append(rg.boolean(d) if rg.r.random() < 0.8 else rg.num(d))
     return out
+
+
+def boolean_families(tier: str, alias_heavy: bool = False) -> Dict[str, List[Any]]:
+    """propositional-plus-quantifier trees for split_and / refactor_reference / negate / join / replacements"""
+    thorough = tier == 'thorough'
+    fam: Dict[str, List[Any]] = {}
+    V = ('var', 'v')
+    xlt = ('bin', '<', X, L(1))
+    alt = ('bin', '<', X, AX)
+    b0 = [P, Q, AP, L(True), L(False), xlt] + ([alt, ('bin', '=', BX, AX)] if alias_heavy or thorough else [alt])
+    b1 = b0 + bins(LOGIC, b0, b0) + [('not', a) for a in b0]
+    fam['prop-depth2'] = bins(LOGIC, b1, b0) + bins(LOGIC, b0, [b for b in b1 if b not in b0]) + [('not', a) for a in b1]
+    c0 = [P, AP, alt]
+    c1 = c0 + bins(LOGIC, c0, c0) + [('not', a) for a in c0]
+    c2 = bins(LOGIC, c1, c1)
+    fam['prop-depth3'] = [('not', a) for a in c2] + [('not', ('not', a)) for a in c1] + (c2 if thorough else c2[::3]) \
+        + [('bin', 'and', ('not', a), Q) for a in (c2 if thorough else c2[::4])]
+    # quantifiers: bodies mixing variable-dependent and variable-free parts
+    qa = [('bin', '<', V, L(1)), ('bin', '=', V, X), ('bin', '>', V, AX)]
+    qf = [P, AP, alt]  # no variable
+    qb0 = qa + qf
+    qb1 = bins(LOGIC, qb0, qb0) + [('not', a) for a in qb0]
+    qb2 = [('not', a) for a in qb1] + bins(('and',), qb1, qb0[:4]) + bins(('and', 'or', 'implies'), qb0[:4], qb1[:: (1 if thorough else 3)])
+    bodies = [b for b in qa + qb1 + qb2 if gen._uses_var(b, 'v')]
+    doms = [XS, AXS, ('set', X, L(1)), ('set', L(1)), ('range', L(0), L(2), False, False), ('range', L(1), L(1), True, False),
+            ('range', X, Y, False, False), ('range', AX, L(3), False, True)]
+    qs = []
+    for q in ('forall', 'exists'):
+        for d in doms:
+            for b in bodies:
+                qs.append(('q', q, 'v', d, b))
+    fam['quantified'] = qs if thorough else qs[::2]
+    sel = qs[:: (5 if thorough else 17)]
+    wrap = []
+    for s in sel:
+        wrap += [('not', s), ('not', ('not', s)), ('bin', 'and', s, P), ('bin', 'and', AP, s), ('bin', 'implies', P, s),
+                 ('not', ('bin', 'implies', s, AP)), ('not', ('bin', 'or', s, P)), ('bin', 'or', s, AP)]
+    fam['quantified-wrapped'] = wrap
+    # nested quantifiers
+    W = ('var', 'w')
+    nested = []
+    inner_bodies = [('bin', '<', W, V), ('bin', 'and', ('bin', '<', W, V), P), ('bin', 'and', ('bin', '<', W, L(1)), ('bin', '>', V, AX)),
+                    ('bin', 'and', AP, ('bin', '=', W, V)), ('not', ('bin', 'or', ('bin', '<', W, V), AP))]
+    for q1 in ('forall', 'exists'):
+        for q2 in ('forall', 'exists'):
+            for d1 in (XS, ('set', X, L(1)), ('range', L(0), L(1), False, False)):
+                for d2 in (('f', 'ys'), AXS, ('range', L(0), V, False, False)):
+                    for ib in inner_bodies:
+                        inner = ('q', q2, 'w', d2, ib)
+                        nested += [('q', q1, 'v', d1, inner), ('not', ('q', q1, 'v', d1, inner)),
+                                   ('q', q1, 'v', d1, ('bin', 'and', inner, ('bin', '<', V, L(2)))),
+                                   ('q', q1, 'v', d1, ('bin', 'and', ('not', inner), Q))]
+    fam['nested-quantifiers'] = nested if thorough else nested[::2]
+    return {k: uniq(v) for k, v in fam.items()}
